@@ -233,6 +233,9 @@ class Evaluator:
                 if is_bool(a) and is_bool(b):
                     return b_and(a, b) if op == "&" else (b_or(a, b) if op == "|" else frozenset({x != y for x in a for y in b}))
                 raise AnalysisError(f"bitwise {op} on numbers in a kernel")
+            if op == "**" and t[3][0] == "const" and isinstance(t[3][1], (int, float)) and not isinstance(t[3][1], bool):
+                k = t[3][1]
+                return lift1(lambda v, k=k: f_pow(v, k))(to_num(self.ev(t[2])))
             a, b = to_num(self.ev(t[2])), to_num(self.ev(t[3]))
             if op == "+":
                 return ADD(a, b)
